@@ -3,6 +3,7 @@
 package plugin
 
 import (
+	"net"
 	"errors"
 	"net/netip"
 	"testing"
@@ -108,6 +109,51 @@ func c13Pool() []system.IP {
 	}
 }
 
+// vfPrepareIfi, when set, makes the c13/c14/c15 runners hand their plugin to the real Prepare for
+// this interface, which replaces the injected source by the operating system's (the case line
+// then carries what the harness read from the same source just before).
+var vfPrepareIfi *net.Interface
+
+// verifPrepared runs the wildcard plugin of the property through the real Prepare on the loopback
+// interface: the sources Prepare installs must be the interface's addresses / the loopback routes.
+func verifPrepared(t *testing.T, out *vfh.Out, prop string) {
+	ifi, err := net.InterfaceByName("lo")
+	if err != nil {
+		t.Logf("%s prepared: not run: %v", prop, err)
+		return
+	}
+	a := system.NewAddresser()
+	addrs, err := a.AddressesByIndex(ifi.Index)
+	if err != nil && prop != "C15" {
+		t.Logf("%s prepared: not run: %v", prop, err)
+		return
+	}
+	routes, rerr := a.LoopbackRoutes()
+	vfPrepareIfi = ifi
+	defer func() { vfPrepareIfi = nil }()
+	switch prop {
+	case "C13":
+		for k := 0; k < 4; k++ {
+			c13Run(t, out, 64, k, addrs)
+		}
+	case "C14":
+		c14Run(t, out, nil, addrs)
+		c14Run(t, out, []netip.Addr{netip.MustParseAddr("2001:db8::53")}, addrs)
+	case "C15":
+		if rerr != nil {
+			t.Logf("C15 prepared: not run: %v", rerr)
+			return
+		}
+		var rs []netip.Prefix
+		for _, r := range routes {
+			rs = append(rs, r.Prefix)
+		}
+		for k := 0; k < 3; k++ {
+			c15Run(t, out, k, rs)
+		}
+	}
+}
+
 func c13Run(t *testing.T, out *vfh.Out, bits int, k int, as []system.IP) {
 	stanza := mp("::/64")
 	if bits != 64 {
@@ -120,6 +166,12 @@ func c13Run(t *testing.T, out *vfh.Out, bits int, k int, as []system.IP) {
 	p := &Prefix{Auto: true, Prefix: stanza, OnLink: onLink, Autonomous: auto,
 		ValidLifetime: valid, PreferredLifetime: pref,
 		Addrs: func() ([]system.IP, error) { return as, nil }}
+	if vfPrepareIfi != nil {
+		p.Addrs = nil
+		if err := p.Prepare(vfPrepareIfi); err != nil {
+			t.Fatalf("Prefix.Prepare: %v", err)
+		}
+	}
 	c := new(vfh.Toks).S("wp").N(bits).B(onLink).B(auto).I(int64(valid)).I(int64(pref)).N(len(as))
 	for _, a := range as {
 		sysIPToks(c, a)
@@ -218,6 +270,12 @@ func c14Pool() []system.IP {
 func c14Run(t *testing.T, out *vfh.Out, static []netip.Addr, as []system.IP) {
 	rd := &RDNSS{Auto: true, Lifetime: 9 * time.Second, Servers: static,
 		Addrs: func() ([]system.IP, error) { return as, nil }}
+	if vfPrepareIfi != nil {
+		rd.Addrs = nil
+		if err := rd.Prepare(vfPrepareIfi); err != nil {
+			t.Fatalf("RDNSS.Prepare: %v", err)
+		}
+	}
 	first := ""
 	// static servers with spare capacity, as a parser building the slice incrementally leaves them
 	static = append(make([]netip.Addr, 0, len(static)+2), static...)
@@ -348,6 +406,12 @@ func c15Run(t *testing.T, out *vfh.Out, k int, rs []netip.Prefix) {
 	}
 	rt := &Route{Auto: true, Prefix: mp("::/0"), Preference: pref, Lifetime: lt,
 		Routes: func() ([]system.Route, error) { return routes, nil }}
+	if vfPrepareIfi != nil {
+		rt.Routes = nil
+		if err := rt.Prepare(vfPrepareIfi); err != nil {
+			t.Fatalf("Route.Prepare: %v", err)
+		}
+	}
 	ra := &ndp.RouterAdvertisement{}
 	impl := new(vfh.Toks)
 	if err := rt.Apply(ra); err != nil {
